@@ -164,6 +164,7 @@ def want(cfg, m, rng, tracker, p):
 COMP = Component(
     spec="WideQueue", name="WideFifo", build=build, methods=lambda cfg: METHODS,
     has_arg=lambda m: m in ("read", "write"), gen_arg=gen_arg, tracker=Tracker, want=want, module=__name__,
+    shadow=lambda cfg: ["read", "write"],
 )
 
 
